@@ -27,6 +27,12 @@ var stmtPool = []string{
 	"switch x := 3; {\ncase x > 2:\n\t_ = '}'\ndefault:\n}",
 	"_ = strings.ToUpper(\"x\")",
 	"defer func() {\n\t_ = recover()\n}()",
+	// locals spelled like packages the resolver template reserves
+	"bytes := struct{ n int }{1}\n_ = bytes.n",
+	"time := struct{ sec int }{2}\n_ = time.sec",
+	"errors := []struct{ msg string }{{\"m\"}}\n_ = errors[0].msg",
+	"sync, io := struct{ on bool }{true}, struct{ eof bool }{}\n_, _ = sync.on, io.eof",
+	"var strconv, ast, graphql, introspection struct{ x int }\n_, _, _, _ = strconv.x, ast.x, graphql.x, introspection.x",
 }
 
 func genBody(r *gen.Rand, tag string) string {
@@ -66,8 +72,8 @@ var helperPool = []string{
 }
 
 type userEdit struct {
-	Bodies  map[string]string `json:"bodies"` // recv.method -> body
-	Docs    map[string]string `json:"docs"`
+	Bodies  map[string]string   `json:"bodies"` // recv.method -> body
+	Docs    map[string]string   `json:"docs"`
 	Helpers map[string][]string `json:"helpers"` // file -> declarations
 	Imports map[string][]string `json:"imports"`
 }
@@ -77,6 +83,7 @@ func applyUserCode(r *gen.Rand, files []string, wild bool) (*userEdit, error) {
 	ue := &userEdit{Bodies: map[string]string{}, Docs: map[string]string{}, Helpers: map[string][]string{}, Imports: map[string][]string{}}
 	helperN := 0
 	recvDeclared := false
+	rootHelper := map[string]bool{}
 	for _, path := range files {
 		b, err := os.ReadFile(path)
 		if err != nil {
@@ -153,6 +160,13 @@ func applyUserCode(r *gen.Rand, files []string, wild bool) (*userEdit, error) {
 				h = fmt.Sprintf(h, helperN)
 			}
 			helpers = append(helpers, h)
+		}
+		// helper methods on the root resolver, one named after a model type
+		for _, hm := range []string{"Settings", "Helper"} {
+			if !rootHelper[hm] && r.Chance(1, 4) {
+				rootHelper[hm] = true
+				helpers = append(helpers, fmt.Sprintf("func (r *Resolver) %s() string {\n\treturn \"a helper on the root resolver called %s\"\n}", hm, hm))
+			}
 		}
 		if len(helpers) > 0 {
 			src += "\n" + strings.Join(helpers, "\n\n") + "\n"
